@@ -187,6 +187,10 @@ CTOR_FIELDS = {
  # element structures of the RIMT devices (the devices' own layouts above take them as given)
  ('rimt::IdMapping', 'new'): {'src_id': '=src_id', 'dst_id': '=dst_id', 'num_ids': '=num_ids', 'dst_iommu_offset': '=dst_iommu_offset', 'ats': '=ats', 'pri': '=pri', 'rciep': '=rciep'},
  ('rimt::InterruptWire', 'new'): {'num': '=num', 'level_trig': '=level_trig', 'polarity_high': '=polarity_high', 'aplic_id': '=aplic_id'},
+ # PCI addresses taken as constructor arguments of other structures (their layouts read bus / device / function)
+ ('hest::PciDevice', 'new'): {'bus': '=bus', 'device': '=device', 'function': '=function'},
+ ('rimt::PciDevice', 'new'): {'segment': '=segment', 'bus': '=bus', 'device': '=device', 'function': '=function'},
+ ('viot::PciDevice', 'new'): {'segment': '=segment', 'bus': '=bus', 'device': '=device', 'function': '=function'},
 }
 # ------------------------------------------------------------------ fixed tables
 T('bert::BERT', 'new', HDR(b'BERT', 1) + [u32('error_region_length'), u64('error_region_base')])
